@@ -216,8 +216,9 @@ class Sim:
         if token is not None:
             self.data_seen.add(str(token))
         scope = getattr(context, "scope", None)
-        if scope in ("FULFILLED", "UNFULFILLED", "UNKNOWN"):
-            return ConditionFulfilledValue(scope)  # an evaluation context handed in by the caller decides
+        if isinstance(scope, str) and scope.startswith("$['state-"):
+            # an evaluation context handed in by the caller decides (the scope is a json path, as documented)
+            return ConditionFulfilledValue(scope[len("$['state-"):-2])
         try:
             return ConditionFulfilledValue(evaluatable_data.body["requirement_constraints"][key])
         except KeyError as key_error:
@@ -306,7 +307,7 @@ def _make_rc_evaluator(sim, keys, sync_keys, index=0):
             async def evaluate(_key, evaluatable_data, context):
                 sim.check_peer_set(index, "rc", _key)
                 token = None
-                if context is not None and context.scope not in ("FULFILLED", "UNFULFILLED", "UNKNOWN"):
+                if context is not None and not str(context.scope or "").startswith("$['state-"):
                     # like a user evaluator that narrows the scope of *its* default context, awaits, and reads it again
                     sim.scope_tokens = getattr(sim, "scope_tokens", 0) + 1
                     token = f"{REQ.get()}/{_key}/#{sim.scope_tokens}"
